@@ -294,17 +294,27 @@ fn build_image_full(log: &[LogOp], prefix: usize, sector: usize, dropped: &HashS
                 }
             }
         }
-        // bytes of the new length that no write of the prefix has touched yet also still hold the old content
+        // SECTORS of the new file that no write of the prefix has touched still hold the old content (a sector that did
+        // receive a write carries the new file's whole sector: zeros where the new file has not been written yet)
         for (p, o) in &old {
             if let Some(f) = files.get_mut(p) {
                 let mut written = vec![false; f.len()];
-                for (i, op) in log[..prefix].iter().enumerate() {
+                for op in log[..prefix].iter() {
                     if let LogOp::Write { path, offset, data } = op {
-                        let _ = i;
-                        if path == p {
-                            for x in (*offset as usize)..((*offset as usize + data.len()).min(written.len())) {
+                        if path == p && !data.is_empty() {
+                            let first = (*offset as usize / sector) * sector;
+                            let last = ((*offset as usize + data.len() - 1) / sector + 1) * sector;
+                            for x in first..last.min(written.len()) {
                                 written[x] = true;
                             }
+                        }
+                    }
+                }
+                // (dropped sector-writes were restored to old bytes above; their sectors count as not written)
+                for (hp, a, b) in &holes {
+                    if hp == p {
+                        for x in (*a)..(*b).min(written.len()) {
+                            written[x] = false;
                         }
                     }
                 }
